@@ -546,6 +546,27 @@ let run_link (line : string) : string =
          Printf.sprintf "OK cb=%d closed=%d" (List.length !seen) (if closed then 1 else 0))) in
   String.concat " || " outs
 
+(* ---- params family: verifier option logic and security estimate -------------------------------- *)
+let run_params (line : string) : string =
+  match split_ws line with
+  | ["sec"; h; q; b; g; e; f; r; k] ->
+    let o = (((((z_of_string q, z_of_string b), z_of_string g), z_of_string e), z_of_string f), z_of_string r) in
+    "OK sec=" ^ s_of_z (reported_security (z_of_string h) o (z_of_string k))
+  | ["acc"; h; q; b; g; e; f; r] ->
+    let o = (((((z_of_string q, z_of_string b), z_of_string g), z_of_string e), z_of_string f), z_of_string r) in
+    "OK accepts=" ^ (if accepts (z_of_string h) o then "1" else "0")
+  | ["tlen"; c; r; h] -> "OK len=" ^ s_of_z (trace_len (z_of_string c) (z_of_string r) (z_of_string h))
+  | _ -> failwith "bad params case"
+
+(* ---- refhash family: reference hash functions ----------------------------------------------------- *)
+let run_refhash (line : string) : string =
+  match split_ws line with
+  | "sha256" :: ws -> "OK " ^ String.concat "," (List.map s_of_z (sha256 (List.map z_of_string ws)))
+  | "blake3" :: ws -> "OK " ^ String.concat "," (List.map s_of_z (blake3 (List.map z_of_string ws)))
+  | "keccak" :: ws -> "OK " ^ String.concat "," (List.map s_of_z (keccak256 (List.map z_of_string ws)))
+  | "rpo" :: ws -> "OK " ^ String.concat "," (List.map s_of_z (hash_elements (List.map z_of_string ws)))
+  | _ -> failwith "bad refhash case"
+
 let () =
   let family = Sys.argv.(1) in
   let ic = open_in Sys.argv.(2) in
@@ -567,6 +588,8 @@ let () =
               | "astexec" -> run_astexec line
               | "serde" -> run_serde line
               | "link" -> run_link line
+              | "params" -> run_params line
+              | "refhash" -> run_refhash line
               | _ -> failwith "unknown family")
            with Failure m -> "DRIVER-FAIL " ^ m
               | Stack_overflow -> "DRIVER-FAIL stack overflow" in
